@@ -49,7 +49,7 @@ InvDefaultIsFirst == DefaultIsFirst(idx, cached)
 InvProjectsAnswers == ProjectsAnswers(idx, cached)
 \* a successful update can be repeated without effect
 InvUpdateIdempotent ==
-  \A d \in Docs : LET r == UpdateIndex(idx, d, 1) IN
+  TLCGet("level") <= MaxLevel => \A d \in Docs : LET r == UpdateIndex(idx, d, 1) IN
      r.res[1] = "ok" => UpdateIndex(r.idx, d, 1) = r
 \* what get_project_info answers is stored information, and the cache path it reports
 \* belongs to one of the version's own URLs
